@@ -119,7 +119,17 @@ func NewEnv() *Env {
 	return e
 }
 
-const stepBudget = 50000
+var stepBudget uint64 = 50000
+var refFuel = 200000
+
+// SetBudgetScale multiplies the step budget and the reference fuel (1 = the default).
+func SetBudgetScale(k int) {
+	if k < 1 {
+		k = 1
+	}
+	stepBudget = 50000 * uint64(k)
+	refFuel = 200000 * k
+}
 
 func posOf(p syntax.Position) Pos { return Pos{p.Line, p.Col} }
 
@@ -251,7 +261,7 @@ func staticPos(err error) Pos {
 // been rendered (positions filled in).
 func RunRef(stmts []*Node, opts Options) (out Outcome) {
 	env := NewEnv()
-	in := &Interp{Opts: opts, Predeclared: env.Predeclared, Thread: env.Thread, Loader: env.Modules, Fuel: 200000}
+	in := &Interp{Opts: opts, Predeclared: env.Predeclared, Thread: env.Thread, Loader: env.Modules, Fuel: refFuel}
 	defer func() {
 		if r := recover(); r != nil {
 			out.Panic = fmt.Sprint(r)
